@@ -544,6 +544,8 @@ class Target(DataExchangeProtocol):
             # send_res_recv_req and self.cmd then set to None
             assert send_data is None, "send_data should be None on first call"
             req = self.send_dep_res_recv_dep_req(None, deadline)
+            if req is None:
+                return None
             self.pni = 0
         else:
             send_data = bytearray(send_data)
